@@ -117,8 +117,15 @@ func (it *Interp) failk(env *zygo.Zlisp, name string, args []zygo.Sexp) (zygo.Se
 	case KEvalCompile:
 		// (let [a] 1): odd binding list, rejected by GenerateLet when eval generates it
 		bad := list(sym(env, "let"), &zygo.SexpArray{Val: []zygo.Sexp{sym(env, "a")}, Env: env}, &zygo.SexpInt{Val: 1})
-		if it.failAt%2 == 0 {
+		switch it.failAt % 3 {
+		case 0:
 			bad = list(sym(env, "begin"), &zygo.SexpInt{Val: 1}, list(sym(env, "and"), &zygo.SexpInt{Val: 1}, list(sym(env, "fn"))))
+		case 2:
+			// the malformed form sits inside a for loop: the generator's loop stack must be unwound
+			i := sym(env, "c05i")
+			hdr := &zygo.SexpArray{Val: []zygo.Sexp{list(sym(env, "def"), i, &zygo.SexpInt{Val: 0}), list(sym(env, "<"), i, &zygo.SexpInt{Val: 1}),
+				list(sym(env, "set"), i, list(sym(env, "+"), i, &zygo.SexpInt{Val: 1}))}, Env: env}
+			bad = list(sym(env, "for"), hdr, bad)
 		}
 		_, err := zygo.EvalFunction(env, "eval", []zygo.Sexp{bad})
 		if err == nil {
